@@ -533,11 +533,21 @@ class ktensor:
                 False
             ), "Weighting and permuting the ktensor at the same time is not allowed."
 
+        # Check the arguments before anything is changed
+        if weight_factor is not None:
+            assert (
+                weight_factor in range(self.ndims)
+            ), "weight_factor must be in the range of self.ndims"
+
         # arrange columns of factor matrices using the permutation provided
         if permutation is not None and isinstance(
             permutation, (tuple, list, np.ndarray)
         ):
             if len(permutation) == self.ncomponents:
+                assert np.array_equal(
+                    np.sort(np.asarray(permutation)), np.arange(self.ncomponents)
+                ), "permutation must be a permutation of the components"
+                permutation = np.asarray(permutation)
                 self.weights = self.weights[permutation]
                 for i in range(self.ndims):
                     self.factor_matrices[i] = self.factor_matrices[i][:, permutation]
